@@ -65,6 +65,34 @@ def handle (ts : List String) : String :=
         | _ => 0))
       s!"{len},{ends.foldl Nat.max 0}"
     | _ => "bad-op"
+  | "prep" :: rest =>
+    -- id layout prep be=fft64|ntt120 kind=big|dft|svp|cnvl|cnvr|vmp p=…  → w,len,maxEnd
+    let be : Be := if (kv rest "be") == some "ntt120" then .ntt120 else .fft64
+    let kind := (kv rest "kind").getD ""
+    let p := kvNats rest "p"
+    let g := fun (k : Nat) => p.getD k 1
+    let showL := fun (l : Lay) => s!"{l.w},{l.len},{maxEnd l}"
+    match kind with
+    | "big" => showL (allocPrep (g 0) (g 1) (g 2) (wBig be))
+    | "dft" | "cnvl" | "cnvr" => showL (allocPrep (g 0) (g 1) (g 2) (wPrep be))
+    | "svp" => showL (allocSvp (g 0) (g 1) (wPrep be))
+    | "vmp" =>
+      let m := allocVmp (g 0) (g 1) (g 2) (g 3) (g 4) (wPrep be)
+      let ends := (List.range m.colsIn).flatMap (fun i => (List.range m.size).map (fun j =>
+        match vmpAtRange m i j with
+        | .ok (_, b) => b
+        | _ => 0))
+      s!"{m.w},{m.len},{ends.foldl Nat.max (vmpRawRange m).2}"
+    | _ => "bad-op"
+  | "consume" :: rest =>
+    -- id layout consume be=… p=n,cols,size → same=1 w,len,maxEnd   (same=1 iff the model's trace has no clobber)
+    let be : Be := if (kv rest "be") == some "ntt120" then .ntt120 else .fft64
+    match kvNats rest "p" with
+    | [n, c, sz] =>
+      let l := intoBig (allocPrep n c sz (wPrep be)) be
+      let okc := !(traceClobbers (compactTrace n (c * sz)))
+      s!"same={if okc then 1 else 0} {l.w},{l.len},{maxEnd l}"
+    | _ => "bad-op"
   | _ => "bad-op"
 
 end Drv.Layout
